@@ -9,6 +9,7 @@ import sys
 import time
 from .. import gen, diff
 from ..real import Real
+from ..terms import is_bound
 from ..terms import V, A, C, I, L, NIL, canon, snap_real, snap_real_iter, build_real, rprogram, rterm
 from ..observe import SCRIPT_FN
 from ..gen import uniq_clauses
@@ -362,7 +363,7 @@ def child(ctx, prog, limit, fault, hold, nested=False, gv_proj=False, raise_limi
         out['again'] = 'EXC ' + type(e2).__name__ + ': ' + str(e2)[:100]
     out.update({'result': res, 'exc': exc, 'before_limit': before_limit, 'after_limit': after_limit, 'trace': trace,
                 'bound_after': left - pre_bound, 'live_variables': len(real.reg.live), 'unraisable': real.unr.take()[:3],
-                'query_vars_unbound': all(not (isinstance(v, E.Variable) and v._is_bound) for v in rargs)})
+                'query_vars_unbound': all(not (isinstance(v, E.Variable) and is_bound(v)) for v in rargs)})
     return out
 
 
